@@ -160,13 +160,18 @@ class FaultRun(object):
         self.zoo = zoo.Zoo(kinds=(cassette,), spy=True).__enter__()
         self.cas = self.zoo.cassettes[0]
         self.cas.fail_save = bool(flags.get('save_fails'))
+        self.cas.slow_save_ms = flags.get('slow_save_ms', 0)
         self.rec = TapeRecorder(self.cas, random_seed=seed)
         if enabled:
             self.rec.enable_recording()
         self.W = PS.World('LIVE')
         self.cls = PS.build_class(prog, self.rec, self.W)
         self.before = self.zoo.snapshot(self.cas)
+        import time
+        import datetime
+        self.t_before, self.utc_before = time.time(), datetime.datetime.utcnow()
         self.outcome = PS.execute(self.cls, prog)
+        self.t_after, self.utc_after = time.time(), datetime.datetime.utcnow()
         self.after = self.zoo.snapshot(self.cas)
         self.spy_log = list(self.cas.spy_log)
 
